@@ -349,6 +349,33 @@ pub fn convmain() {
                 }
                 rec.ev(e);
             }
+            "sweep" => {
+                // one cylinder colour swept over its saturation-like component (index 1), converted along `path`;
+                // the last node's value is recorded per step: {"op":"sweep","from":"okhsl","in":[h,_,l],"s":[..],"path":["oklab","oklch"]}
+                let from = idx(c["from"].as_str().unwrap());
+                let path: Vec<usize> = c["path"].as_array().unwrap().iter().map(|p| idx(p.as_str().unwrap())).collect();
+                let mut base: V = [0.0; 4];
+                for (k, s) in c["in"].as_array().unwrap().iter().enumerate() { base[k] = hexf(s.as_str().unwrap()); }
+                let mut ss = vec![];
+                let mut outs = vec![];
+                let mut panic = 0u8;
+                for sv in c["s"].as_array().unwrap() {
+                    let mut v = base;
+                    v[1] = hexf(sv.as_str().unwrap());
+                    ss.push(v[1].ex());
+                    let mut cur = from;
+                    let mut ok = true;
+                    for &to in &path {
+                        match table[cur][to] {
+                            Some(f) => match catch(|| f(&v, b'u')) { Ok(o) => { v = o.v; cur = to; } Err(_) => { panic = 1; ok = false; break } },
+                            None => { ok = false; break }
+                        }
+                    }
+                    outs.push(if ok { enc(&v, nodes[cur].n, false) } else { json!([[2, 0], [2, 0], [2, 0]]) });
+                }
+                rec.ev(json!({"ev": "sweep", "id": c["id"], "t": TNAME, "from": nodes[from].name,
+                              "to": nodes[*path.last().unwrap()].name, "in": enc(&base, nodes[from].n, false), "s": ss, "out": outs, "panic": panic}));
+            }
             "tri" => {
                 // two routes from the same input: {"op":"tri","from":..,"in":[..],"p1":[..],"p2":[..]}
                 let w1 = walk(&nodes, &table, &c, "p1", b'u');
